@@ -1,40 +1,37 @@
-"""The list of kernels regenerated from source on every run (see DESIGN.md Appendix A)."""
-from .kernels import FuncKernel, Kernel as K
+"""Aggregates the per-area kernel tables vlib/ktab/<area>.py.
+Each area module defines KERNELS (list), optionally TWINS and CONSTS. Area `core` is written to
+coq/gen/Kernels.v + coq/gen/Consts.v; any other area <a> to coq/gen/K_<a>.v + coq/gen/C_<a>.v."""
+import importlib
+import os
+import pkgutil
 
-Z, B = "Z", "bool"
+from . import ktab
 
-KERNELS = [
-    # ---- C09: interval computation in _get_protection_gke_from_cache -----------------------
-    K("k_now", "_client.py", "_get_protection_gke_from_cache", ("assign", "current_time", 0),
-      [("time_ns", Z)], Z, props=("C09",), calls=(("time.time_ns", "time_ns"),)),
-    K("k_l0", "_client.py", "_get_protection_gke_from_cache", ("assign", "l0", 0),
-      [("current_time", Z)], Z, props=("C09",)),
-    K("k_l1", "_client.py", "_get_protection_gke_from_cache", ("assign", "l1", 0),
-      [("current_time", Z)], Z, props=("C09",)),
-    K("k_l2", "_client.py", "_get_protection_gke_from_cache", ("assign", "l2", 0),
-      [("current_time", Z)], Z, props=("C09",)),
 
-    # ---- C02: the whole control skeleton of compute_l2_key ---------------------------------
-    FuncKernel("k_compute_l2_key", "_gkdi.py", "compute_l2_key",
-               params=[("request_l1", Z), ("request_l2", Z), ("rk_l1", Z), ("rk_l2", Z), ("rk_l1_key", "K"), ("rk_l2_key", "K")],
-               locals={"l1": Z, "l1_key": "K", "l2": Z, "l2_key": "K", "reseed_l2": B},
-               attr_params={}, props=("C02", "C05", "C10")),
+def areas():
+    out = {}
+    for m in sorted(pkgutil.iter_modules(ktab.__path__), key=lambda m: m.name):
+        try:
+            out[m.name] = importlib.import_module(f"vlib.ktab.{m.name}")
+        except Exception as exc:  # a broken table must not break the other areas
+            out[m.name] = exc
+    return out
 
-    # ---- C20: DC discovery ------------------------------------------------------------------
-    K("k_srv_key", "_dns.py", "_get_highest_answer", ("lambda", 0),
-      [("a_priority", Z), ("a_weight", Z)], "(Z * Z)", props=("C20",)),
-    K("k_srv_name_domain", "_dns.py", "lookup_dc", ("assign", "record", 0),
-      [("domain_name", "list Z")], "list Z", props=("C20",)),
-    K("k_srv_name_bare", "_dns.py", "lookup_dc", ("assign", "record", 1),
-      [], "list Z", props=("C20",)),
-    K("k_srv_rstrip_chars", "_dns.py", "_get_highest_answer", ("callarg", "?.rstrip", 0, 0), [], "list Z", props=("C20",)),
-    K("k_srv_rdtype", "_dns.py", "lookup_dc", ("callarg", "dns.resolver.resolve", 0, 1), [], "list Z", props=("C20",)),
-    K("k_srv_search", "_dns.py", "lookup_dc", ("callarg", "dns.resolver.resolve", 0, "search"), [], B, props=("C20",)),
-    K("k_srv_name_test", "_dns.py", "lookup_dc", ("if", 0),
-      [("domain_name", "list Z")], B, props=("C20",)),
-]
 
-# sync/async twins compared as normalised ASTs (reported as a proof-side obligation of the named property)
-TWINS = [
-    ("C20", "_dns.py", "lookup_dc", "async_lookup_dc", {"asyncresolver": "resolver"}),
-]
+def kernel_file(area):
+    return "Kernels.v" if area == "core" else f"K_{area}.v"
+
+
+def const_file(area):
+    return "Consts.v" if area == "core" else f"C_{area}.v"
+
+
+def all_kernels():
+    ks = []
+    for a, mod in areas().items():
+        if not isinstance(mod, Exception):
+            ks += list(getattr(mod, "KERNELS", []))
+    return ks
+
+
+KERNELS = all_kernels()
